@@ -293,20 +293,21 @@ type bEvent struct {
 }
 
 type bRun struct {
-	s        *BScenario
-	out      *Outcome
-	hist     []bEvent
-	ev       chan struct{} // broadcast on every callback event
-	conns    []*bConn
-	nOpen    int
-	stopReq  bool
-	finished int
-	consumed map[string]int
-	leftover map[string]int
-	drained  map[string]bool
-	fed      []string
-	logbuf   bytes.Buffer
+	s          *BScenario
+	out        *Outcome
+	hist       []bEvent
+	ev         chan struct{} // broadcast on every callback event
+	conns      []*bConn
+	nOpen      int
+	stopReq    bool
+	finished   int
+	consumed   map[string]int
+	leftover   map[string]int
+	drained    map[string]bool
+	fed        []string
+	logbuf     bytes.Buffer
 	driverNote string
+	lastFedAt  time.Duration
 }
 
 func (r *bRun) rec(kind string, conn int, id string) {
@@ -335,16 +336,16 @@ func waitEv(site string, ev chan struct{}, d time.Duration) bool {
 }
 
 type bConn struct {
-	r      *bRun
-	k      int
-	script *BConn
-	dd     bool
-	closed bool
-	ev     chan struct{}
+	r                  *bRun
+	k                  int
+	script             *BConn
+	dd                 bool
+	closed             bool
+	ev                 chan struct{}
 	nSend, nPing, nAck int
-	recvd  []string
-	acked  []string
-	log    logger.Logger
+	recvd              []string
+	acked              []string
+	log                logger.Logger
 }
 
 type scriptErr struct {
@@ -711,7 +712,9 @@ func (r *bRun) drive() {
 				return
 			}
 			r.fed = append(r.fed, id)
+			r.lastFedAt = simrt.Now()
 			r.rec("fed", -1, id)
+			r.notify()
 		}
 		// all fed: wait for the stop time or command
 		if stopAt >= 0 {
@@ -738,10 +741,8 @@ func (r *bRun) drive() {
 
 	// driver: liveness and shutdown bounds, computed from the knobs this run set
 	maxSize := 0
-	feedTotal := 0
 	for _, c := range s.Chunks {
 		maxSize = max(maxSize, c.Size)
-		feedTotal += c.DelayMs
 	}
 	sendTO := r.sendTimeout(maxSize)
 	opTO := max(ms(s.AckTimeoutMs), sendTO, ms(s.OpenTimeoutMs), ms(s.HTTPTimeoutMs))
@@ -750,13 +751,15 @@ func (r *bRun) drive() {
 		if s.MaxDurMs > 0 {
 			rot = ms(s.MaxDurMs)
 		}
-		bound := max(ms(s.HealAtMs), ms(feedTotal)) + opTO + rot + defs.ForwarderAckerStopTimeout +
+		terms := opTO + rot + defs.ForwarderAckerStopTimeout +
 			ms(s.AckTimeoutMs) + sendTO + ms(s.OpenTimeoutMs) + ms(s.RetryMs) + ms(s.PingMs) + 5*time.Second
 		for {
 			if len(r.fed) == len(s.Chunks) && len(r.consumed) == len(s.Chunks) {
 				break
 			}
-			left := bound - simrt.Now()
+			// the clock of the bound starts when faults have stopped and the youngest chunk so far was handed over
+			deadline := max(ms(s.HealAtMs), r.lastFedAt) + terms
+			left := deadline - simrt.Now()
 			if left <= 0 {
 				var missing []string
 				for _, id := range r.fed {
@@ -764,9 +767,12 @@ func (r *bRun) drive() {
 						missing = append(missing, id)
 					}
 				}
-				r.driverNote = fmt.Sprintf("L1: %d of %d chunks not consumed within %v after faults stopped (heal at %v): %v",
-					len(s.Chunks)-len(r.consumed), len(s.Chunks), bound, ms(s.HealAtMs), missing)
-				break
+				if len(missing) > 0 {
+					r.driverNote = fmt.Sprintf("L1: %d of %d fed chunks not consumed within %v after faults stopped (heal at %v, last fed at %v): %v",
+						len(missing), len(r.fed), terms, ms(s.HealAtMs), r.lastFedAt, missing)
+					break
+				}
+				left = -1 // everything handed over so far was consumed; the feeder is still on its own schedule
 			}
 			waitEv("b.driver.L1", r.ev, left)
 		}
